@@ -20,6 +20,10 @@ type TargetSpec struct {
 	Fail        string // "", connect, status, timeout, break, gzip_corrupt
 	FailOffset  int    // for break / gzip_corrupt: offset in the bytes on the wire
 	Status      int    // for Fail == status
+	// Hold, when non-nil, parks the request until the channel is closed (or the
+	// request context ends): the scrape is "in flight" while the simulation does
+	// something else.
+	Hold chan struct{}
 }
 
 type Seen struct {
@@ -121,6 +125,13 @@ func (t *Targets) RoundTrip(req *http.Request) (*http.Response, error) {
 	t.Seen = append(t.Seen, &Seen{URL: req.URL.String(), Host: req.URL.Host, Path: req.URL.Path, Query: req.URL.RawQuery,
 		Header: req.Header.Clone(), At: time.Now(), Spec: spec})
 	t.mu.Unlock()
+	if spec != nil && spec.Hold != nil {
+		select {
+		case <-spec.Hold:
+		case <-req.Context().Done():
+			return nil, req.Context().Err()
+		}
+	}
 	if spec == nil || spec.Fail == "connect" {
 		return nil, ErrConnect
 	}
